@@ -188,7 +188,7 @@ def check_post(ex, reg, contract, state, pre, env, result):
         t, side = calls.eval_clause(ex, s, contract, cl, cenv, old_state=pre)
         for x in side:
             s.assume(x)
-        ex.oblige("ensures", s, t, label=str(k), info={"clause": cl, "known": contract.known.get(k)})
+        ex.oblige("ensures", s, t, label=str(k), info={"clause": cl})
     check_frame(ex, reg, contract, state, pre, "frame")
 
 
@@ -299,7 +299,7 @@ def check_raise(ex, reg, contract, state, pre, env, exc):
     goal = simp(disj(conds)) if conds else z3.BoolVal(False)
     line = None
     ex.oblige("raises", state, goal, label=cname + ("" if exact else "+"),
-              info={"exception": cname, "exact": exact, "allowed_by": matched})
+              info={"exception": cname, "exact": exact, "allowed_by": matched, "raised_at": o.fields.get("__line__")})
     for ename in matched:
         for k, cl in enumerate(contract.raises_ensures.get(ename, [])):
             s = state.copy()
